@@ -715,6 +715,58 @@ def join_cases():
         ctx.oblige("shutdown_all shuts every registered executor down without waiting, also one whose own shutdown(wait=True) is still waiting for its jobs (that waiter is released because the jobs are cancelled)", z3.BoolVal(calls == [(0, False), (1, False), (2, False)]), info={"calls": str(calls)})
 
     out.append(Case(f"{PROP}/processes.ExecutorRegistry.shutdown_all", "three executors", harness_registry, sources=("halmos.processes:ExecutorRegistry.shutdown_all",)))
+
+    def harness_singleton(interp):
+        """the callers never keep the registry: each one writes `ExecutorRegistry().register(e)` / `ExecutorRegistry().shutdown_all()`.  Every
+        such expression must denote the one registry, with everything registered so far"""
+        ctx = interp.ctx
+        saved = hp.ExecutorRegistry._instance
+        hp.ExecutorRegistry._instance = None
+        try:
+            calls = []
+
+            class Ex:  # (weakly referenceable and hashable, like PopenExecutor)
+                def __init__(self, n):
+                    self.n = n
+
+                def shutdown(self, wait=True):
+                    calls.append((self.n, wait))
+
+            exs = [Ex(0), Ex(1), Ex(2)]
+            regs = []
+            for e in exs:
+                r = interp.call(hp.ExecutorRegistry, [], {})
+                regs.append(r)
+                interp.call(hp.ExecutorRegistry.__dict__["register"], [r, e], {})
+            last = interp.call(hp.ExecutorRegistry, [], {})
+            ctx.oblige("ExecutorRegistry() always denotes the same registry", z3.BoolVal(all(r is last for r in regs)))
+            interp.call(hp.ExecutorRegistry.__dict__["shutdown_all"], [last], {})
+            ctx.oblige("a shutdown request issued through a new ExecutorRegistry() expression reaches every executor registered through earlier ones", z3.BoolVal(sorted(calls) == [(0, False), (1, False), (2, False)]), info={"calls": str(calls)})
+        finally:
+            hp.ExecutorRegistry._instance = saved
+
+    def replay_singleton(r):
+        saved = hp.ExecutorRegistry._instance
+        hp.ExecutorRegistry._instance = None
+        try:
+            calls = []
+
+            class Ex:
+                def __init__(self, n):
+                    self.n = n
+
+                def shutdown(self, wait=True):
+                    calls.append(self.n)
+
+            keep = [Ex(0), Ex(1), Ex(2)]
+            for e in keep:
+                hp.ExecutorRegistry().register(e)
+            hp.ExecutorRegistry().shutdown_all()
+            return {"reproduced": sorted(calls) != [0, 1, 2], "detail": f"three executors registered through ExecutorRegistry().register(e), then ExecutorRegistry().shutdown_all(): shut down: {sorted(calls)}", "inputs": "register x3; shutdown_all"}
+        finally:
+            hp.ExecutorRegistry._instance = saved
+
+    out.append(Case(f"{PROP}/processes.ExecutorRegistry", "registered through one expression, shut down through another", harness_singleton, replay=replay_singleton, sources=("halmos.processes:ExecutorRegistry.__new__", "halmos.processes:ExecutorRegistry.register", "halmos.processes:ExecutorRegistry.shutdown_all")))
     return out
 
 
